@@ -215,6 +215,10 @@ def jobs(tier, seed):
         js.append(_job("interior_2v3r_ternary", 2, 3, T3, T3, T3, "solve_lp_interior"))
         js.append(_job("interior_3v2r_ternary", 3, 2, T3, T3, T3, "solve_lp_interior"))
     else:
+        for nm in ((2, 3), (3, 2)):
+            tot = _size(nm[0], nm[1], T3, T3, T3)
+            bi = seed % 64
+            js.append(_job(f"interior_{nm[0]}v{nm[1]}r_ternary_block{bi}of64", nm[0], nm[1], T3, T3, T3, "solve_lp_interior", tot * bi // 64, tot * (bi + 1) // 64, describe=f"rotating 1/64 block (VERIF_SEED) of all {nm[0]}-variable {nm[1]}-row LPs over {{-1,0,1}} for the interior-point solver"))
         blocks = 64
         bq = seed % blocks
         lo, hi = total33 * bq // blocks, total33 * (bq + 1) // blocks
